@@ -21,9 +21,12 @@ Line protocol
   gfill e=2 a=7 n=1005        n global publications
   q c=1                       queue length
   rs n=5 | conc pubs=3 n=20 cs=2 | concsub cs=2 rounds=200   run-service / concurrent-publisher / concurrent-subscriber cases
-  ops: `;`-separated  s.c.e.t.g | u.c.e.t | f.c.e.fn | p.c.e.args | g.e.args | c.c | gs.e.c | gu.e.c  (args `_`-separated;
-       gs/gu = direct Subscribe/Unsubscribe(name, centre) on the exported global centre)
-Observation tokens: s+ s0 dup bad x q u c [ ] i<id>:<args> g:<centres> gs gu blocked
+  ops: `;`-separated  s.c.e.t.g | u.c.e.t | f.c.e.fn | p.c.e.args | g.e.args | c.c | gs.e.c | gu.e.c | gsh.e.c.t
+       (args `_`-separated; gs/gu = direct Subscribe/Unsubscribe(name, centre) on the exported global centre;
+        gsh = direct Subscribe through a wrapper centre whose GetId() performs template t's script, i.e. between the
+        global centre's list lookup and its store)
+Observation tokens: s+ s0 dup bad x q u c [ ] i<id>:<args> g:<centres> gs gu blocked, and m<id>:<args> when a listener
+  finds its arguments changed after its script ran (never produced by the model)
 -/
 namespace Cell2v.Driver.C17
 open Cell2v.Driver Cell2v.Events
@@ -41,6 +44,7 @@ def parseOp (s : String) : Option SOp :=
   | ["c", c] => do pure (.clear (← c.toNat?))
   | ["gs", e, c] => do pure (.gsub (← e.toNat?) (← c.toNat?))
   | ["gu", e, c] => do pure (.gunsub (← e.toNat?) (← c.toNat?))
+  | ["gsh", e, c, t] => do pure (.gsubh (← e.toNat?) (← c.toNat?) (← t.toNat?))
   | _ => none
 
 def parseOps (s : String) : Option (List SOp) :=
@@ -134,6 +138,7 @@ def stepLine (s : St) (line : String) (g : List GTok) : St × String :=
   | some "rs" => (s, rsObs ((kvNat ws "n").getD 0))
   | some "conc" => (s, concObs ((kvNat ws "pubs").getD 0) ((kvNat ws "n").getD 0) ((kvNat ws "cs").getD 0))
   | some "concsub" => (s, "lost=0")
+  | some "concreg" => (s, "missed=0")
   | _ => (s, "bad-op")
 
 def modelLine (s : St) (line : String) : St × String := stepLine s line []
@@ -178,6 +183,7 @@ structure Mon where
   reg : List (Nat × Nat) := []      -- (name, centre): who is registered with the global centre, per the API's contract
   flag : List (Nat × Nat) := []     -- (centre, name): lists that registered themselves (first GSubscribe … last listener gone)
   touched : List (Nat × Nat) := []  -- (name, centre) pairs somebody (un)registered by hand
+  hooked : List Nat := []
   dead : Bool := false         -- the case was abandoned after a hang
 
 def Mon.tm (m : Mon) (t : Nat) : Option Tmpl := (m.tmpls.find? (fun x => x.1 == t)).map (·.2)
@@ -197,6 +203,7 @@ def opName : SOp → String
   | .clear c => s!"c.{c}"
   | .gsub e c => s!"gs.{e}.{c}"
   | .gunsub e c => s!"gu.{e}.{c}"
+  | .gsubh e c t => s!"gsh.{e}.{c}.{t}"
 
 /-- effect of a completed script operation, as the API documents it; `tok` = what the implementation did -/
 def monOp (m : Mon) (op : SOp) (tok : String) : R :=
@@ -277,6 +284,7 @@ def monOp (m : Mon) (op : SOp) (tok : String) : R :=
   | .gsub e c =>
     if tok == "gs" then .ok { m with reg := if m.reg.contains (e, c) then m.reg else (e, c) :: m.reg, touched := (e, c) :: m.touched }
     else if tok == "bad" then .ok m else viol "trace-shape" s!"{opName op} answered {tok}"
+  | .gsubh .. => viol "trace-shape" s!"{opName op} answered {tok}"
   | .gunsub e c =>
     if tok == "gu" then .ok { m with reg := m.reg.filter (· != (e, c)), touched := (e, c) :: m.touched }
     else if tok == "bad" then .ok m else viol "trace-shape" s!"{opName op} answered {tok}"
@@ -332,9 +340,22 @@ def monTok : Nat → Mon → String → R
     match m.stack with
     | [] => viol "trace-shape" s!"unexpected {tok}"
     | .script [] :: rest => monTok k { m with stack := rest } tok
-    | .script (op :: ops) :: rest => monOp { m with stack := .script ops :: rest } op tok
+    | .script (.gsubh e c t :: ops) :: rest =>
+      -- racing subscribe: the racing script's observations come first, then the subscribe's own
+      let okCentre := match m.cs[c]? with | some ct => !ct.light | none => false
+      if !okCentre then
+        if tok == "bad" then .ok { m with stack := .script ops :: rest } else viol "trace-shape" s!"gsh.{e}.{c}.{t} answered {tok}"
+      else if m.hooked.contains t then
+        if tok == "dup" then .ok { m with stack := .script ops :: rest } else viol "trace-shape" s!"gsh.{e}.{c}.{t} answered {tok}"
+      else
+        let sc := match m.tm t with | some tm => tm.script | none => []
+        monTok k { m with hooked := t :: m.hooked, stack := .script (sc ++ [.gsub e c]) :: .script ops :: rest } tok
+    | .script (op :: ops) :: rest =>
+      if tok.startsWith "m" then viol "args-overwritten" s!"listener sees {tok} after its script ran: the arguments of a running invocation changed"
+      else monOp { m with stack := .script ops :: rest } op tok
     | .disp c e a snap called :: rest =>
-      if tok == "]" then monClose m c e snap called rest
+      if tok.startsWith "m" then viol "args-overwritten" s!"listener sees {tok} after its script ran: the arguments of a running invocation changed"
+      else if tok == "]" then monClose m c e snap called rest
       else if tok == "blocked" then viol "reentrant-blocked" s!"dispatch of ({c},{e}) never returned"
       else match parseInv tok with
         | some (id, args) => monInv m c e a snap called rest id args
@@ -415,6 +436,9 @@ def specLine (m : Mon) (line : String) : Mon × String :=
     | some "rs" =>
       if obs == rsObs ((kvNat ws "n").getD 0) then (m, "ok")
       else (m, s!"VIOLATION C17/runservice-delivery {op} got {obs}")
+    | some "concreg" =>
+      if obs == "missed=0" then (m, "ok")
+      else (m, s!"VIOLATION C17/global-missed-centre {op}: a centre whose GSubscribe had returned did not receive the next global publication, {obs}")
     | some "concsub" =>
       if obs == "lost=0" then (m, "ok")
       else (m, s!"VIOLATION C17/concurrent-subscribe-lost {op}: centres that subscribed a new global name concurrently never received its publication, {obs}")
